@@ -163,6 +163,16 @@ where
         match &mut self.inner {
             InnerConnection::H2(conn) => {
                 *request.version_mut() = http::Version::HTTP_2;
+                // hyper reads the value of a `Connection` header left on an HTTP/2 request as a
+                // string and panics (in the connection task) if it is not visible ASCII. Such a
+                // value cannot name any header, so it is dropped here.
+                if request
+                    .headers()
+                    .get(http::header::CONNECTION)
+                    .is_some_and(|value| value.to_str().is_err())
+                {
+                    request.headers_mut().remove(http::header::CONNECTION);
+                }
                 Box::pin(conn.send_request(request))
             }
             InnerConnection::H1(conn) => {
